@@ -149,7 +149,8 @@ theorem write_dataSeq (u : Bool) (blocks : List Bytes) (idx : Nat) :
       · rfl
     refine ((cardAcmd_nodata B u _ _).bind fun _ => (waitNotBusy_nodata B u _).bind fun _ =>
       (cardCommand_nodata B u _ _).bind fun _ => (writeBlocks_dataSeq B u blocks).bind fun _ =>
-        (waitNotBusy_nodata B u _).bind fun _ => (?_ : DataSeq u _ [.byte 0xFD])).cast ?_
+        (waitNotBusy_nodata B u _).bind fun _ => (?_ : DataSeq u (writeByte B _) [.byte 0xFD]).bind fun _ =>
+          waitNotBusy_nodata B u _).cast ?_
     · intro s _
       refine (writeByte_tr B _ s).conseq ?_
       rintro r evs ⟨rfl, hr⟩
@@ -300,17 +301,19 @@ theorem read_multi_terminated (n idx start : Nat) (hn : n ≠ 1) (s : St σ)
   · simp
   · cases he
 
-/-- On success the log ends with a not-busy poll and the stop token. -/
+/-- On success the log ends with a not-busy poll, the stop token, and the polls of the final
+busy wait, the last of which shows the card not busy. -/
 def EndsStop {α : Type} (r : SRes α) (evs : List Event) : Prop :=
-  (∃ a, r = .ok a) → ∃ pre, evs = pre ++ [Event.poll 255, Event.byte 0xFD]
+  (∃ a, r = .ok a) → ∃ pre post, evs = pre ++ [Event.poll 255, Event.byte 0xFD] ++ post ∧ AllPolls post ∧
+    post.getLast? = some (Event.poll 255)
 
 theorem EndsStop.bind {m : S σ α} {f : α → S σ β} (hm : Emits (fun _ => True) m)
     (hf : ∀ a, Tr (f a) EndsStop) : Tr (m >>= f) EndsStop :=
   (Tr.bind hm hf).conseq fun r evs h => by
     rcases h with ⟨a, e1, e2, rfl, _, h2⟩ | ⟨e, rfl, _⟩ | ⟨p, rfl, _⟩
     · intro hr
-      obtain ⟨pre, rfl⟩ := h2 hr
-      exact ⟨e1 ++ pre, by simp⟩
+      obtain ⟨pre, post, rfl, hp, hl⟩ := h2 hr
+      exact ⟨e1 ++ pre, post, by simp, hp, hl⟩
     · rintro ⟨_, hr⟩; cases hr
     · rintro ⟨_, hr⟩; cases hr
 
@@ -319,22 +322,29 @@ theorem cardCommand_any (c arg : Nat) : Emits (fun _ => True) (cardCommand B c a
 theorem cardAcmd_any (c arg : Nat) : Emits (fun _ => True) (cardAcmd B c arg) :=
   (cardAcmd_tr B c arg).conseq fun _ _ _ => trivial
 
-/-- A multi-block write that succeeds ends with the stop token 0xFD, sent when the card was not busy. -/
+/-- A multi-block write that succeeds has sent the stop token 0xFD when the card was not busy, and
+after it only the polls of the final busy wait, the last of which showed the card not busy again. -/
 theorem write_multi_terminated (blocks : List Bytes) (idx : Nat) (hne : ∀ b, blocks ≠ [b]) (s : St σ)
     (hok : (write B blocks idx s).1 = .ok ()) :
-    ∃ pre, evsNew s (write B blocks idx s).2 = pre ++ [Event.poll 255, Event.byte 0xFD] := by
+    ∃ pre post, evsNew s (write B blocks idx s).2 = pre ++ [Event.poll 255, Event.byte 0xFD] ++ post ∧
+      AllPolls post ∧ post.getLast? = some (Event.poll 255) := by
   have hlast : Tr (do
       waitNotBusy B DEFAULT_WRITE_RETRIES
-      writeByte B (UInt8.ofNat STOP_TRAN_TOKEN)) EndsStop := by
-    refine (Tr.bind (waitNotBusy_tr B _) fun _ => writeByte_tr B _).conseq ?_
-    rintro r evs (⟨a, e1, e2, rfl, ⟨_, h1, _⟩, rfl, _⟩ | ⟨e, rfl, _⟩ | ⟨p, rfl, _⟩)
-    · intro _
-      have hl := h1 rfl
-      obtain ⟨pre, rfl⟩ : ∃ pre, e1 = pre ++ [Event.poll 255] := by
-        rcases List.eq_nil_or_concat e1 with rfl | ⟨pre, x, rfl⟩
-        · simp at hl
-        · simp at hl; exact ⟨pre, by rw [hl]; simp⟩
-      exact ⟨pre, by simp [STOP_TRAN_TOKEN]⟩
+      writeByte B (UInt8.ofNat STOP_TRAN_TOKEN)
+      waitNotBusy B DEFAULT_WRITE_RETRIES) EndsStop := by
+    refine (Tr.bind (waitNotBusy_tr B _) fun _ => Tr.bind (writeByte_tr B _) fun _ => waitNotBusy_tr B _).conseq ?_
+    rintro r evs (⟨a, e1, e2, rfl, ⟨_, h1, _⟩, h2⟩ | ⟨e, rfl, _⟩ | ⟨p, rfl, _⟩)
+    · rcases h2 with ⟨a', e21, e22, rfl, ⟨rfl, _⟩, hp, hl, _⟩ | ⟨e, rfl, _⟩ | ⟨p, rfl, _⟩
+      · intro hr
+        obtain ⟨u, rfl⟩ := hr
+        have hl1 := h1 rfl
+        obtain ⟨pre, rfl⟩ : ∃ pre, e1 = pre ++ [Event.poll 255] := by
+          rcases List.eq_nil_or_concat e1 with rfl | ⟨pre, x, rfl⟩
+          · simp at hl1
+          · simp at hl1; exact ⟨pre, by rw [hl1]; simp⟩
+        exact ⟨pre, e22, by simp [STOP_TRAN_TOKEN], hp, hl rfl⟩
+      · rintro ⟨_, hr⟩; cases hr
+      · rintro ⟨_, hr⟩; cases hr
     · rintro ⟨_, hr⟩; cases hr
     · rintro ⟨_, hr⟩; cases hr
   have hw : Tr (write B blocks idx) EndsStop := by
